@@ -96,7 +96,7 @@ func (e *Evaluator) Eval(node ast.Node, env *object.Env) object.Object {
 	case *ast.TernaryExp:
 		return e.evalTernaryExp(node, env)
 	case *ast.InfixExp:
-		return e.evalInfixExp(node.Operator, node.Left, node.Right, env)
+		return e.evalInfixExp(node, env)
 	case *ast.PostfixExp:
 		return e.evalPostfixExp(node, env)
 	case *ast.CallExp:
@@ -711,24 +711,24 @@ func (e *Evaluator) evalExpressions(
 }
 
 func (e *Evaluator) evalInfixExp(
-	operator string,
-	left,
-	right ast.Expression,
+	node *ast.InfixExp,
 	env *object.Env,
 ) object.Object {
-	leftObj := e.Eval(left, env)
+	leftObj := e.Eval(node.Left, env)
 
 	if isError(leftObj) {
 		return leftObj
 	}
 
-	rightObj := e.Eval(right, env)
+	rightObj := e.Eval(node.Right, env)
 
 	if isError(rightObj) {
 		return rightObj
 	}
 
-	return e.evalInfixOperatorExp(operator, leftObj, rightObj, left)
+	// a fault of the operation is reported where its operator stands,
+	// the left operand may have begun lines before it
+	return e.evalInfixOperatorExp(node.Operator, leftObj, rightObj, node)
 }
 
 func (e *Evaluator) evalPostfixExp(
